@@ -8,6 +8,7 @@ func init() {
 	vRegister("H_C20_Sequence", H_C20_Sequence)
 	vRegister("H_C20_Concurrent", H_C20_Concurrent)
 	vRegister("H_C20_LoopsStop", H_C20_LoopsStop)
+	vRegister("H_C20_ShutdownOverlap_RT", H_C20_ShutdownOverlap_RT)
 }
 
 // vLifecycleFix: a node created the way Create() does it (minus sockets): real setAlive bootstrap.
@@ -192,4 +193,39 @@ func H_C20_LoopsStop() {
 	vYield()
 	vAssert(stopped == 1, "c20.loops.stopped-at-once")
 	vCover("c20.loops")
+}
+
+// C20: a second Shutdown (or a Leave) that starts while the first Shutdown is still tearing the transport down.
+// The overlap is forced with a gate inside the recording transport, so it replays deterministically (in real
+// time: goroutines parked on a mutex cannot be replayed under synctest).
+func H_C20_ShutdownOverlap_RT() {
+	f := vLifecycleFix()
+	m := f.m
+	gate := make(chan struct{})
+	f.tr.shutdownGate = gate
+	done := 0
+	second := vPick(2)
+	if second == 1 {
+		vExpectPanic("leave after shutdown") // documented outcome of Leave once Shutdown has completed
+	}
+	go func() { _ = m.Shutdown(); done++ }()
+	vYield() // the first call is now inside transport.Shutdown
+	go func() {
+		if second == 0 {
+			_ = m.Shutdown()
+		} else {
+			_ = m.Leave(10 * time.Millisecond)
+		}
+		done++
+	}()
+	vYield()
+	close(gate)
+	vYield()
+	vAdvance(50 * time.Millisecond)
+	vAssert(done == 2, "c20.overlap.both-return")
+	if second == 0 {
+		vAssert(f.tr.shut == 1, "c20.overlap.transport-shut-once")
+	}
+	vAssert(m.hasShutdown(), "c20.overlap.flag")
+	vCover("c20.overlap")
 }
